@@ -445,24 +445,24 @@ func (c *Cluster) alertsHandler() {
 
 			if c.config.DisableRepinning {
 				logger.Debugf("repinning is disabled. Will not re-allocate pins on alerts")
-				return
+				continue
 			}
 
 			cState, err := c.consensus.State(c.ctx)
 			if err != nil {
 				logger.Warn(err)
-				return
+				continue
 			}
 			list, err := cState.List(c.ctx)
 			if err != nil {
 				logger.Warn(err)
-				return
+				continue
 			}
 
 			distance, err := c.distances(c.ctx, alrt.Peer)
 			if err != nil {
 				logger.Warn(err)
-				return
+				continue
 			}
 
 			for _, pin := range list {
